@@ -257,6 +257,11 @@ func boundsRule(c *Ctx, fns map[*ssa.Function]bool, ruleSlice, rulePanic string,
 }
 
 func runC10(c *Ctx) {
+	if !importing {
+		// obfs3's hand-over from the handshake buffer to the connection (C13.R4): a reader left on a nil
+		// or exhausted buffer crashes or ends the stream
+		importObls(c, "C13", runC13, "X13", func(k string) bool { return containsAny(k, "(*obfs3Conn).Read#handover") })
+	}
 	// "spin without consuming input": the obfs4 data phase skips its blocking read under the
 	// handshake-leftover flag; that this flag is cleared whenever the read is skipped is decided by
 	// C01's remainder rules, which are part of this property too (imported as RS5/RS6)
